@@ -545,6 +545,9 @@ func runChild(o vhlib.Opts, what string, idx int, timeout time.Duration) ([]byte
 		return nil, "", err
 	}
 	cmd := exec.Command(exe, "-seed", strconv.FormatUint(o.Seed, 10), "-tier", o.Tier, "-out", o.Out, "-extra", fmt.Sprintf("child:%s:%d", what, idx))
+	if what == "rwraise" { // the shards of syncx.RWMutex are sized at package init: this child starts with 2 Ps
+		cmd.Env = append(os.Environ(), "GOMAXPROCS=2")
+	}
 	var so, se bytes.Buffer
 	cmd.Stdout, cmd.Stderr = &so, &se
 	if err := cmd.Start(); err != nil {
@@ -665,6 +668,10 @@ func main() {
 		var out interface{}
 		if parts[1] == "pool" {
 			out = poolStorm(o.Seed, idx, o.Thorough())
+		} else if parts[1] == "rwlower" {
+			out = rwScript("lower")
+		} else if parts[1] == "rwraise" {
+			out = rwScript("raise")
 		} else if parts[1] == "climb" {
 			out = poolClimb(o.Seed, idx, o.Thorough())
 		} else if parts[1] == "multi" {
@@ -689,7 +696,7 @@ func main() {
 	w.Case(fmt.Sprintf("CConst %s", vhlib.Nat(syncx.VerifBlockSize)), "constants(blockSize)", true, nil, map[string]interface{}{"blockSize": syncx.VerifBlockSize})
 
 	// ---- storms in child processes (run several at a time: each child sets its own GOMAXPROCS) ----
-	npool, nrw := 16, 4
+	npool, nrw := 16, 2 // (two of the four RWMutex storms gave way to the scripted rounds of rwscript.go)
 	if th {
 		npool, nrw = 120, 12
 	}
@@ -706,6 +713,13 @@ func main() {
 	}
 	for i := 0; i < nrw; i++ {
 		jobs = append(jobs, &job{what: "rw", idx: i})
+	}
+	nscript := 1
+	if th {
+		nscript = 4
+	}
+	for i := 0; i < nscript; i++ {
+		jobs = append(jobs, &job{what: "rwlower", idx: i}, &job{what: "rwraise", idx: i})
 	}
 	nham := 3
 	if th {
@@ -751,7 +765,7 @@ func main() {
 
 	totalEvents, totalGC, totalPC, stolenRuns, totalAbove := 0, 0, 0, 0, 0
 	var hammerOps int64
-	idleRuns, idleDropped, multiRuns, climbSteps := 0, 0, 0, 0
+	idleRuns, idleDropped, multiRuns, climbSteps, rwRounds := 0, 0, 0, 0, 0
 	type pcase struct {
 		term, label string
 		replay      interface{}
@@ -770,6 +784,12 @@ func main() {
 		}
 		if j.what == "climb" {
 			label = "pool/GOMAXPROCS climbing under load(ownership flag)"
+		}
+		if j.what == "rwlower" {
+			label = "rwmutex/scripted exclusion per shard, GOMAXPROCS lowered"
+		}
+		if j.what == "rwraise" {
+			label = "rwmutex/scripted exclusion per locker, GOMAXPROCS raised above the shard count"
 		}
 		if j.what == "multi" {
 			label = "pool/several pools across a GOMAXPROCS ladder"
@@ -796,6 +816,19 @@ func main() {
 				m2 := map[string]interface{}{"pool": k, "events": len(pr.Events), "run": meta}
 				pcs = append(pcs, pcase{histTerm(pr), label, m2})
 			}
+			continue
+		}
+		if j.what == "rwlower" || j.what == "rwraise" {
+			var r rwScriptResult
+			if err := json.Unmarshal(j.out, &r); err != nil {
+				w.Violation(label, "child output unreadable", map[string]interface{}{"error": err.Error(), "stderr": j.tail})
+				continue
+			}
+			if r.Deadlock {
+				w.Violation(label, "after the release the blocked party did not get in within 5 s", r)
+			}
+			rwRounds += r.Rounds
+			pcs = append(pcs, pcase{fmt.Sprintf("CRW %s %d %d", vhlib.Nat(r.Shards), r.RW, r.WW), label, r})
 			continue
 		}
 		if j.what == "climb" {
@@ -907,6 +940,7 @@ func main() {
 	emitDeque(w, rng.Fork(), th, o.Seed)
 	w.Notes["idle_then_collect_runs"] = idleRuns
 	w.Notes["several_pools_ladder_runs"] = multiRuns
+	w.Notes["rwmutex_scripted_exclusion_rounds"] = rwRounds
 	w.Notes["gomaxprocs_steps_while_all_ps_cross_block_boundaries"] = climbSteps
 	w.Notes["idle_then_collect_runs_where_gc_dropped_chains"] = idleDropped
 	w.Notes["pool_history_events"] = totalEvents
